@@ -141,6 +141,11 @@ def check_negotiation(case, stats: Stats) -> None:
 
 
 # ------------------------------------------------------------------------------------------- graph level
+# identifiers: plain ones and ones that are legal IRI text but special in a result format (comma / quote characters for CSV,
+# ampersand and entity-like text for XML, non-ASCII and astral characters for JSON / the byte encoding)
+IDENTS = ["1", "", "a/b", "x_1", "0001", "A#b", "1,5", ",", "a,b,c", "a&b", "&lt;", "&amp;amp;", "x'y", "é", "\u4e2d\u6587", "\U0001F600", "a;b", "a=b?c=d", "%22", "(1)", "a+b", "~t", "@x", "*"]
+
+
 @st.composite
 def service_cases(draw, tier="quick", http=False):
     recs = draw(S.record_sets(delimiter=":", min_records=1, max_records=4, max_syn=3, url_shaped=True, unicode_arm=False, allow_empty_prefix=False))
@@ -150,13 +155,20 @@ def service_cases(draw, tier="quick", http=False):
             bad = r["uri_prefix"] + draw(st.sampled_from([" sp/", "q\"/", "{b}/", "a|b/", "\\x/", "^/", "`/"]))
             if bad not in S.all_uri_prefixes(recs):
                 r["uri_prefix_synonyms"].append(bad)
+    # ... and some that are valid IRI text but need care in one of the three result formats (CSV quoting, XML escaping,
+    # JSON / UTF-8 encoding)
+    for r in recs:
+        if draw(st.integers(0, 3)) == 0:
+            odd = r["uri_prefix"] + draw(st.sampled_from(["q,r/", "a&b/", "&amp;/", "x'y/", "é/", "a;b=", "%2C/", "\U0001F600/"]))
+            if odd not in S.all_uri_prefixes(recs):
+                r["uri_prefix_synonyms"].append(odd)
     valid_ups = [u for u in S.all_uri_prefixes(recs) if not any(ch in INVALID_IRI_CHARS for ch in u)]
     mode = draw(st.integers(0, 5))
     valid_syns = [u for r in recs for u in r["uri_prefix_synonyms"] if not any(ch in INVALID_IRI_CHARS for ch in u)]
     if mode == 5 and valid_syns:
         uri = draw(st.sampled_from(valid_syns)) + draw(st.sampled_from(["1", "a/b", "0001"]))  # a synonym rendering
     elif mode <= 2 or mode == 5:
-        uri = draw(st.sampled_from(valid_ups)) + draw(st.sampled_from(["1", "", "a/b", "x_1", "0001", "A#b"]))
+        uri = draw(st.sampled_from(valid_ups)) + draw(st.sampled_from(IDENTS))
     elif mode == 3:
         uri = draw(st.sampled_from(["http://unknown.example/1", "urn:x:1", "https://h", "http://g.or"]))
     else:
@@ -173,7 +185,7 @@ def service_cases(draw, tier="quick", http=False):
     # depend on what was looked up before it): prefer URIs of other, nested prefixes
     more = []
     for _ in range(draw(st.integers(0, 3))):
-        more.append(draw(st.sampled_from(valid_ups)) + draw(st.sampled_from(["1", "a/b", "x_1", ""])))
+        more.append(draw(st.sampled_from(valid_ups)) + draw(st.sampled_from(["1", "a/b", "x_1", "", "1,5", "a&b"])))
     case["more_uris"] = more
     if http:
         case["accept"] = draw(accept_headers())["header"]
@@ -224,6 +236,10 @@ def _classify(case, lm, stats, extra=None):
     elif lm is not None and any(any(ch in INVALID_IRI_CHARS for ch in u) for u in uri_prefixes_of(lm[1])):
         klass = "invalid-iri-synonym-filtered"
     stats.cls("recognised" if lm is not None else "unrecognised")
+    if lm is not None and any(ch in u for ch in ",&'" for u in [case["uri"], *uri_prefixes_of(lm[1])]):
+        stats.cls("answer-needs-csv-quoting-or-xml-escaping")
+    if lm is not None and any(ord(ch) > 127 for u in [case["uri"], *uri_prefixes_of(lm[1])] for ch in u):
+        stats.cls("answer-has-non-ascii")
     if case["query_predicate"] not in (case["predicates"] or [OWL_SAMEAS]):
         stats.cls("other-predicate")
     if klass:
@@ -338,8 +354,12 @@ def check_http(case, stats: Stats) -> None:
                 _extend(conv, recs[len(recs) - late:])
                 stats.cls("converter-extended-after-app-built")
             want, lm = _expected(case, current)
-            for name in ("values-inside", "values-after"):
+            # the generated Accept header with both VALUES placements, then every supported format by its plain media
+            # type (what is delivered must not depend on the format, C18)
+            accept0 = case.get("accept")
+            for name, acc in [("values-inside", accept0), ("values-after", accept0)] + [("values-inside", t) for t in (JSON, XML, CSV, "text/csv")]:
                 q = shapes[name]
+                accept, want_ct = acc, negotiation_oracle(acc)
                 headers = {} if accept is None else {"Accept": accept}
                 calls = {
                     "flask-get": lambda: flask_client.get("/sparql", query_string={"query": q}, headers=headers),
@@ -360,7 +380,7 @@ def check_http(case, stats: Stats) -> None:
                     got = _parse_bindings(ct, body, free)
                     if got != want:
                         raise Violation(f"{phase} {how} {name} Accept={accept!r} ({ct}): ?{free} = {sorted(got)!r}, expected {sorted(want)!r}")
-    _classify(case, lm, stats, {"accept": accept})
+    _classify(case, lm, stats, {"accept": case.get("accept")})
 
 
 SUBS = [
@@ -368,6 +388,6 @@ SUBS = [
         required_classes=("nt:whitespace+q+2supported", "header:compact")),
     Sub(name="graph", check=check_graph, strategy=lambda tier: service_cases(tier), n={"quick": 200, "thorough": 600},
         required_classes=("recognised", "unrecognised", "other-predicate", "nt:queried-uri-is-synonym-rendering", "nt:invalid-iri-synonym-filtered", "converter-extended-after-graph-built", "several-uris-on-one-graph")),
-    Sub(name="http", check=check_http, strategy=lambda tier: service_cases(tier, http=True), n={"quick": 60, "thorough": 200},
-        required_classes=("recognised",)),
+    Sub(name="http", check=check_http, strategy=lambda tier: service_cases(tier, http=True), n={"quick": 80, "thorough": 250},
+        required_classes=("recognised", "answer-needs-csv-quoting-or-xml-escaping", "answer-has-non-ascii")),
 ]
